@@ -1,4 +1,4 @@
-import RxnModel.Proofs.CompactionSys
+import RxnModel.Proofs.CompactionWriteRun
 import RxnModel.Generated.Facts
 /-!
 # C18 — compaction never changes what the database contains
@@ -43,12 +43,54 @@ theorem compaction_sound : CompactionSound := compactionSound
 /-- **Every change set the compactor produces is safe.** For every compactor cursor, every answer to every size
 comparison (`Oracle`: level-0 trigger, size amplification above the limit, goal met after each candidate, level
 over its size limit) and every way `WriteRun` cuts the merged run: a change set returned by `compact` on a valid
-layout with pairwise distinct table ids, at least two levels and level-0 ages increasing in insertion order (what
-flushes produce; it makes `OrderOldToNew` the insertion order) is a member of the safe family. -/
+layout with pairwise distinct table ids and at least two levels, whose level-0 tables **that share a key** are
+age-ordered in insertion order, is a member of the safe family. The age hypothesis holds for level lists built by
+flushes (`flush_built_level0`) and for level lists loaded from several checkpoints (`composite_level0`). -/
 theorem compact_is_safe (c : Compactor) (L : Levels) (o : Oracle) (cs : ChangeSet) (c' : Compactor)
-    (hv : LayoutValid L) (hid : (L.flatten.map (·.id)).Nodup) (hage : L0AgeOrdered L) (hlen : 2 ≤ L.length)
+    (hv : LayoutValid L) (hid : (L.flatten.map (·.id)).Nodup) (hage : L0KeyAgeOrdered L) (hlen : 2 ≤ L.length)
     (h : compact c L o = (some cs, c')) : SafeCS L cs.rm cs.lvl cs.add :=
   compact_safe (weakValid_of_layoutValid hv) hid hage hlen h
+
+/-- level 0 built by flushes: ages increase in insertion order (kept by every flush, `compaction_with_flushes_invariant`) -/
+theorem flush_built_level0 (L : Levels) (h : L0AgeOrdered L) : L0KeyAgeOrdered L := keyAge_of_age h
+
+/-- **level 0 of a composite checkpoint** (`recovery.LoadCheckpointList` appends the handles' level-0 lists in handle
+order, C06 `merged_level0_keeps_age_order`): when every source's own list is age-ordered and tables of different
+sources share no key (sources own disjoint key groups), the appended level 0 meets the hypothesis of
+`compact_is_safe` — whatever the handle order and however the sequence numbers of different sources compare.
+So a table the age-ordered partial pick of `majorCompaction` takes is never newer, in its source's own order, than a
+table it leaves behind that shares a key with it. -/
+theorem composite_level0 (srcs : List (List Tbl)) (deeper : List (List Tbl))
+    (hsrc : ∀ s ∈ srcs, s.Pairwise (fun a b => age a < age b))
+    (hdis : srcs.Pairwise (fun s1 s2 => ∀ a ∈ s1, ∀ b ∈ s2, DisjointKeys a.run b.run)) :
+    L0KeyAgeOrdered (srcs.flatten :: deeper) := keyAge_of_sources srcs deeper hsrc hdis
+
+/-- **With the real `WriteRun`** (C17's `Sst.writeRun`, byte-exact against `TableWriter.WriteRun`) cutting the merged
+run at any positive target size instead of an assumed chunking: the change set is in the safe family, so every
+`Get` and scan are unchanged and the layout stays valid; and the new level, seen through C17's hand-off lemmas, is
+made of sorted runs with pairwise exclusive key ranges. -/
+theorem compact_with_real_writeRun (c : Compactor) (L : Levels) (o : Oracle) (cs : ChangeSet) (c' : Compactor)
+    (target n : Nat) (ht : 0 < target)
+    (hv : LayoutValid L) (hid : (L.flatten.map (·.id)).Nodup) (hage : L0KeyAgeOrdered L) (hlen : 2 ≤ L.length)
+    (h : compact c L o = (some cs, c')) :
+    SafeCS L cs.rm cs.lvl (writeRunL target cs.add.flatten) ∧
+    (∀ k, levelsGet (applyCS L n ⟨cs.rm, cs.lvl, writeRunL target cs.add.flatten⟩) k = levelsGet L k) ∧
+    (∀ p, scanView (applyCS L n ⟨cs.rm, cs.lvl, writeRunL target cs.add.flatten⟩) p = scanView L p) ∧
+    LayoutValid (applyCS L n ⟨cs.rm, cs.lvl, writeRunL target cs.add.flatten⟩) ∧
+    (∀ t ∈ mkTables n (writeRunL target cs.add.flatten), Run.Sorted t.run) ∧
+    RangeUnique (mkTables n (writeRunL target cs.add.flatten)) := by
+  have hs := compact_is_safe c L o cs c' hv hid hage hlen h
+  have hs' : SafeCS L cs.rm cs.lvl (writeRunL target cs.add.flatten) :=
+    safeCS_rechunk hs (writeRunL_flatten _ _) (writeRunL_ok target ht _)
+  have hp := safe_preserves n hv hs'
+  have hsorted : SortedRun cs.add.flatten := by
+    rw [hs.added]
+    apply mergeAll_sorted
+    intro r hr
+    obtain ⟨t, ht', rfl⟩ := List.mem_map.mp hr
+    exact hv.sorted t ((readOrder_mem _ t).mp (List.mem_filter.mp ht').1)
+  have hl := writeRunL_level target ht hsorted n
+  exact ⟨hs', hp.1, hp.2.1, hp.2.2, hl.1, hl.2⟩
 
 /-- **A safe change set composes with flushes that arrive between its computation and its application**: with new
 level-0 tables `ts` (their ids are not among the removed ids) the change set is still safe, and applying it after
@@ -144,7 +186,7 @@ level 2) followed by a flush arriving before the commit is a history of the syst
 def sys0 : Sys := { L := d22L, nextId := 4 }
 
 example : SysInv sys0 :=
-  ⟨d22_witness_valid, by unfold IdsFresh; decide, by unfold L0AgeOrdered; decide, by decide,
+  ⟨d22_witness_valid, by unfold IdsFresh; decide, by unfold L0KeyAgeOrdered; decide, by decide,
    fun cs h => by cases h⟩
 
 def sys1 : Sys := { sys0 with c := (compact sys0.c sys0.L d22O).2, pending := (compact sys0.c sys0.L d22O).1 }
@@ -155,5 +197,17 @@ example : Reach sys0 [.compactBegin d22O, .flush [[⟨[0x6b], 12, true, []⟩]]]
   refine ⟨by decide, by decide, by decide, by decide⟩
 
 example : (compact sys0.c sys0.L d22O).1.map (·.rm) = some [1, 0] := by decide
+
+/-- a composite level 0: source A = [k@10 | k@20, m@21], source B = [z@1] appended after it. Ages 10, 20, 1 do not
+increase in insertion order, yet the per-key form holds (`composite_level0` applies), and the age-ordered partial
+pick (B's table first, then A's oldest) leaves A's newer version of `k` on top -/
+def compL : Levels :=
+  [[⟨0, [⟨[0x6b], 10, false, [1]⟩]⟩, ⟨1, [⟨[0x6b], 20, false, [2]⟩, ⟨[0x6d], 21, false, [3]⟩]⟩, ⟨2, [⟨[0x7a], 1, false, [4]⟩]⟩],
+   [], [⟨3, [⟨[0x61], 1, false, [5]⟩]⟩]]
+
+example : ¬ L0AgeOrdered compL ∧ L0KeyAgeOrdered compL ∧ LayoutValid compL := by
+  refine ⟨by unfold L0AgeOrdered; decide, by unfold L0KeyAgeOrdered; decide, by decide⟩
+
+example : (majorCompaction compL { d22O with goalMet := fun n => decide (2 ≤ n) }).rm = [2, 0, 3] := by decide
 
 end Rxn.C18
